@@ -1037,9 +1037,10 @@ package stats
 //@   ensures [certain] confidence >= 1 ==> result.LoOrder == 0 && result.HiOrder == n + 1 && result.Confidence == 1
 //@   ensures [exact-mass] confidence < 1 && n <= quantileCIApproxThreshold ==> result.Confidence == bsum(BinomialDist{n, q}, result.LoOrder, result.HiOrder)
 //@   ensures [exact-enough] confidence < 1 && n <= quantileCIApproxThreshold ==> result.Confidence >= confidence || (BinomialDist{n, q}.PMF(result.LoOrder - 1) <= 0 && BinomialDist{n, q}.PMF(result.HiOrder) <= 0)
-//@   loop 1 invariant (confidence > 0 ==> accum - samp.PMF(l) < confidence || accum - samp.PMF(r - 1) < confidence) && x == (q == 0 ? 0 : iceil((n + 1) * q) - 1) && 0 <= l && l <= x && x < r && r <= n + 1 && accum == bsum(samp, l, r) && lp == samp.PMF(l - 1) && rp == samp.PMF(r) && samp.N == n && samp.P == q && 0 <= x && x <= n && lp >= 0 && rp >= 0 && (l == 0 ==> lp == 0) && (r == n + 1 ==> rp == 0)
+//@   loop 1 invariant (res.Ambiguous ==> samp.PMF(l) == samp.PMF(r)) && (confidence > 0 ==> accum - samp.PMF(l) < confidence || accum - samp.PMF(r - 1) < confidence) && x == (q == 0 ? 0 : iceil((n + 1) * q) - 1) && 0 <= l && l <= x && x < r && r <= n + 1 && accum == bsum(samp, l, r) && lp == samp.PMF(l - 1) && rp == samp.PMF(r) && samp.N == n && samp.P == q && 0 <= x && x <= n && lp >= 0 && rp >= 0 && (l == 0 ==> lp == 0) && (r == n + 1 ==> rp == 0)
 //@   ensures [contains-start] confidence < 1 && n <= quantileCIApproxThreshold ==> result.LoOrder <= (q == 0 ? 0 : iceil((n + 1) * q) - 1) && (q == 0 ? 0 : iceil((n + 1) * q) - 1) < result.HiOrder
 //@   ensures [end-needed] 0 < confidence && confidence < 1 && n <= quantileCIApproxThreshold ==> result.Confidence - BinomialDist{n, q}.PMF(result.LoOrder) < confidence || result.Confidence - BinomialDist{n, q}.PMF(result.HiOrder - 1) < confidence
+//@   ensures [ambiguous] confidence < 1 && n <= quantileCIApproxThreshold && result.Ambiguous ==> BinomialDist{n, q}.PMF(result.LoOrder) == BinomialDist{n, q}.PMF(result.HiOrder)
 //@   ensures [normal-enough] confidence < 1 && n > quantileCIApproxThreshold ==> result.Confidence >= confidence
 //@   ensures [conf-range]    confidence < 1 && n > quantileCIApproxThreshold ==> result.Confidence <= 1
 //@   assigns nothing
